@@ -17,6 +17,7 @@ RULE = (
     "full load and for a generated window (rows a::s with s in {1..5,7,-1,-3}, columns c0:c1). "
     "Non-trivial: lines>=2 and pixels>=2 and at least two distinct sample words. Distinct = sha1 "
     "of the case dict."
+    " One case in six also writes the index cache and reads the pixels again through it. Stage 'in-place-pairs': two such products with the same file names are materialised one after the other at the same root and both are judged."
 )
 ASSUMPTIONS = [
     "layout tables under /verif/layout are the reference for where the sample area starts",
